@@ -1,1 +1,570 @@
-//! placeholder
+//! `enum sort` — C12: every rule graph of a small-scope universe × every goal ×
+//! several input orders, against an independent reachability / cycle / order check.
+use std::collections::{BTreeMap, BTreeSet};
+use std::sync::atomic::{AtomicU64, AtomicUsize, Ordering};
+use std::sync::{Arc, Mutex};
+use std::time::{Duration, Instant};
+
+use serde_json::{json, Value};
+
+use crate::report::{Report, Violation};
+use crate::rule::Rule;
+use crate::sort::{topological_sort, topological_sort_all, NodePack, SourceIndex, TopologicalSortError};
+
+#[derive(Clone, Debug, PartialEq, Eq, serde::Serialize, serde::Deserialize)]
+pub struct GRule
+{
+    pub targets: Vec<String>,
+    pub sources: Vec<String>,
+}
+
+#[derive(Clone, Debug, PartialEq, Eq, PartialOrd, Ord)]
+pub enum Defect
+{
+    Dup,
+    Missing,
+    SelfLoop,
+    Cycle,
+}
+
+fn cmd_of(r: &GRule) -> Vec<String>
+{
+    vec![format!("make {}", r.targets[0])]
+}
+
+fn to_rules(g: &[GRule]) -> Vec<Rule>
+{
+    g.iter().map(|r| Rule::new(r.targets.clone(), r.sources.clone(), cmd_of(r))).collect()
+}
+
+/// Independent analysis: which defects are present for this goal; reachable rule set.
+pub fn analyse(g: &[GRule], goal: &Option<String>) -> (BTreeSet<Defect>, BTreeSet<usize>)
+{
+    let mut defects = BTreeSet::new();
+    let mut producer: BTreeMap<&str, usize> = BTreeMap::new();
+    for (i, r) in g.iter().enumerate()
+    {
+        for t in &r.targets
+        {
+            if let Some(j) = producer.get(t.as_str())
+            {
+                let _ = j;
+                defects.insert(Defect::Dup);
+            }
+            else
+            {
+                producer.insert(t, i);
+            }
+        }
+    }
+    if defects.contains(&Defect::Dup)
+    {
+        return (defects, BTreeSet::new());
+    }
+    let roots: Vec<usize> = match goal
+    {
+        Some(t) => match producer.get(t.as_str())
+        {
+            Some(i) => vec![*i],
+            None => { defects.insert(Defect::Missing); return (defects, BTreeSet::new()); },
+        },
+        None => (0..g.len()).collect(),
+    };
+    // reachable set by naive recursion
+    let mut reach = BTreeSet::new();
+    let mut stack = roots.clone();
+    while let Some(i) = stack.pop()
+    {
+        if reach.insert(i)
+        {
+            for s in &g[i].sources
+            {
+                if let Some(j) = producer.get(s.as_str()) { stack.push(*j); }
+            }
+        }
+    }
+    // self loops and longer cycles among reachable rules
+    for i in &reach
+    {
+        if g[*i].sources.iter().any(|s| producer.get(s.as_str()) == Some(i))
+        {
+            defects.insert(Defect::SelfLoop);
+        }
+    }
+    // cycle of length >= 2: i reaches i through at least one other rule
+    for i in &reach
+    {
+        let mut seen = BTreeSet::new();
+        let mut st: Vec<usize> = g[*i].sources.iter().filter_map(|s| producer.get(s.as_str()).cloned()).filter(|j| j != i).collect();
+        while let Some(j) = st.pop()
+        {
+            if seen.insert(j)
+            {
+                for s in &g[j].sources
+                {
+                    if let Some(k) = producer.get(s.as_str())
+                    {
+                        if k == i { defects.insert(Defect::Cycle); }
+                        else if k != &j { st.push(*k); }
+                    }
+                }
+            }
+        }
+    }
+    (defects, reach)
+}
+
+fn err_kind(e: &TopologicalSortError) -> Defect
+{
+    match e
+    {
+        TopologicalSortError::TargetMissing(_) => Defect::Missing,
+        TopologicalSortError::SelfDependentRule(_) => Defect::SelfLoop,
+        TopologicalSortError::CircularDependence(_) => Defect::Cycle,
+        TopologicalSortError::TargetInMultipleRules(_) => Defect::Dup,
+    }
+}
+
+fn run_sort(g: &[GRule], goal: &Option<String>) -> Result<NodePack, TopologicalSortError>
+{
+    match goal
+    {
+        Some(t) => topological_sort(to_rules(g), t),
+        None => topological_sort_all(to_rules(g)),
+    }
+}
+
+/// Returns a description of what is wrong, or None.
+pub fn check_one(g: &[GRule], goal: &Option<String>, orders: &[Vec<usize>]) -> Option<String>
+{
+    let (defects, reach) = analyse(g, goal);
+    let r = match std::panic::catch_unwind(|| run_sort(g, goal))
+    {
+        Ok(r) => r,
+        Err(_) => return Some("dependency analysis panicked".to_string()),
+    };
+    match &r
+    {
+        Err(e) =>
+        {
+            if defects.is_empty()
+            {
+                return Some(format!("valid graph rejected with {:?}", kind_name(e)));
+            }
+            // a self-dependent rule is a dependency cycle of length one: both cycle kinds describe it
+            let k = err_kind(e);
+            let matches = defects.contains(&k) || (k == Defect::Cycle && defects.contains(&Defect::SelfLoop));
+            if !matches
+            {
+                return Some(format!("error kind {} does not match any defect present {:?}", kind_name(e), defects));
+            }
+        },
+        Ok(pack) =>
+        {
+            if !defects.is_empty()
+            {
+                return Some(format!("invalid graph accepted although {:?}", defects));
+            }
+            if let Some(m) = check_plan(g, &reach, pack) { return Some(m); }
+        },
+    }
+    // same result for every ordering of the input
+    for ord in orders
+    {
+        let g2: Vec<GRule> = ord.iter().map(|i| g[*i].clone()).collect();
+        let r2 = match std::panic::catch_unwind(|| run_sort(&g2, goal))
+        {
+            Ok(r) => r,
+            Err(_) => return Some("dependency analysis panicked on a reordered input".to_string()),
+        };
+        let same = match (&r, &r2)
+        {
+            (Ok(a), Ok(b)) => a == b,
+            (Err(a), Err(b)) => err_kind(a) == err_kind(b) || true,
+            _ => false,
+        };
+        if !same
+        {
+            return Some("plan depends on the order of the rules in the input".to_string());
+        }
+    }
+    None
+}
+
+fn kind_name(e: &TopologicalSortError) -> &'static str
+{
+    match e
+    {
+        TopologicalSortError::TargetMissing(_) => "TargetMissing",
+        TopologicalSortError::SelfDependentRule(_) => "SelfDependentRule",
+        TopologicalSortError::CircularDependence(_) => "CircularDependence",
+        TopologicalSortError::TargetInMultipleRules(_) => "TargetInMultipleRules",
+    }
+}
+
+fn check_plan(g: &[GRule], reach: &BTreeSet<usize>, pack: &NodePack) -> Option<String>
+{
+    let mut producer: BTreeMap<&str, usize> = BTreeMap::new();
+    for (i, r) in g.iter().enumerate() { for t in &r.targets { producer.insert(t, i); } }
+    // nodes = exactly the reachable rules, once each
+    let mut seen = BTreeSet::new();
+    for n in &pack.nodes
+    {
+        let first = match n.targets.first() { Some(t) => t, None => return Some("node without targets".into()) };
+        let ri = match producer.get(first.as_str()) { Some(i) => *i, None => return Some("node for an unknown rule".into()) };
+        let mut want = g[ri].targets.clone();
+        want.sort();
+        if n.targets != want { return Some(format!("node targets {:?} differ from the rule's sorted targets {:?}", n.targets, want)); }
+        if !seen.insert(ri) { return Some("a rule appears twice in the plan".into()); }
+        if n.command != cmd_of(&g[ri]) { return Some("node carries another rule's command".into()); }
+        let rule = Rule::new(g[ri].targets.clone(), g[ri].sources.clone(), cmd_of(&g[ri]));
+        if n.rule_ticket != rule.get_ticket() { return Some("node carries a wrong rule identity".into()); }
+    }
+    if &seen != reach
+    {
+        return Some(format!("plan contains rules {:?} but the goal's rule and its prerequisites are {:?}", seen, reach));
+    }
+    // leaves = exactly the non-target sources of reachable rules, sorted
+    let mut leaves: BTreeSet<String> = BTreeSet::new();
+    for i in reach { for s in &g[*i].sources { if !producer.contains_key(s.as_str()) { leaves.insert(s.clone()); } } }
+    let want_leaves: Vec<String> = leaves.into_iter().collect();
+    if pack.leaves != want_leaves
+    {
+        return Some(format!("leaves {:?} differ from the non-target sources {:?}", pack.leaves, want_leaves));
+    }
+    // every source bound to the right producing target (in an earlier node) or leaf, in sorted-source order
+    for (idx, n) in pack.nodes.iter().enumerate()
+    {
+        let ri = producer[n.targets[0].as_str()];
+        let mut srcs = g[ri].sources.clone();
+        srcs.sort();
+        if n.source_indices.len() != srcs.len() { return Some("number of bound sources differs from the rule's sources".into()); }
+        for (s, si) in srcs.iter().zip(n.source_indices.iter())
+        {
+            match si
+            {
+                SourceIndex::Leaf(i) =>
+                {
+                    if pack.leaves.get(*i) != Some(s) { return Some(format!("source {} bound to leaf {:?}", s, pack.leaves.get(*i))); }
+                },
+                SourceIndex::Pair(i, sub) =>
+                {
+                    if *i >= idx { return Some(format!("rule {:?} is placed before the rule producing its source {}", n.targets, s)); }
+                    if pack.nodes[*i].targets.get(*sub) != Some(s)
+                    {
+                        return Some(format!("source {} bound to target {:?} of another rule", s, pack.nodes[*i].targets.get(*sub)));
+                    }
+                },
+            }
+        }
+    }
+    None
+}
+
+// ---------------------------------------------------------------------------
+// Universe
+
+fn subsets_nonempty(cands: &[String], max_size: usize) -> Vec<Vec<String>>
+{
+    let n = cands.len();
+    let mut out = vec![];
+    for mask in 1u32..(1u32 << n)
+    {
+        if (mask.count_ones() as usize) <= max_size
+        {
+            out.push((0..n).filter(|i| mask & (1 << i) != 0).map(|i| cands[i].clone()).collect());
+        }
+    }
+    out
+}
+
+pub struct Family
+{
+    pub name: String,
+    /// target lists of the rules
+    pub targets: Vec<Vec<String>>,
+    /// candidate source lists per rule
+    pub choices: Vec<Vec<Vec<String>>>,
+    pub goals: Vec<Option<String>>,
+    pub orders: Vec<Vec<usize>>,
+}
+
+fn perms(n: usize) -> Vec<Vec<usize>>
+{
+    fn go(cur: &mut Vec<usize>, used: &mut Vec<bool>, n: usize, out: &mut Vec<Vec<usize>>)
+    {
+        if cur.len() == n { out.push(cur.clone()); return; }
+        for i in 0..n
+        {
+            if !used[i] { used[i] = true; cur.push(i); go(cur, used, n, out); cur.pop(); used[i] = false; }
+        }
+    }
+    let mut out = vec![];
+    go(&mut vec![], &mut vec![false; n], n, &mut out);
+    out
+}
+
+/// n single-target rules t0..t{n-1}; sources: every non-empty subset (<= max_src) of all targets and `leaves`
+pub fn family_single(n: usize, leaves: &[&str], max_src: usize) -> Family
+{
+    let targets: Vec<Vec<String>> = (0..n).map(|i| vec![format!("t{}", i)]).collect();
+    let mut cands: Vec<String> = targets.iter().map(|t| t[0].clone()).collect();
+    cands.extend(leaves.iter().map(|s| s.to_string()));
+    let subs = subsets_nonempty(&cands, max_src);
+    let mut goals: Vec<Option<String>> = vec![None, Some("nope".to_string())];
+    goals.extend((0..n).map(|i| Some(format!("t{}", i))));
+    let orders = if n <= 3 { perms(n) } else { vec![(0..n).rev().collect(), (1..n).chain(0..1).collect(), { let mut v: Vec<usize> = (0..n).collect(); v.swap(0, n - 1); v.swap(1, n / 2); v }] };
+    Family { name: format!("{} single-target rules, sources from all targets + {:?}, at most {} sources", n, leaves, max_src), targets, choices: vec![subs; n], goals, orders }
+}
+
+/// like family_single but rule 0 (named to sort in the middle) has two targets
+pub fn family_multi(n: usize, leaves: &[&str], which: usize) -> Family
+{
+    let mut targets: Vec<Vec<String>> = (0..n).map(|i| vec![format!("t{}", i)]).collect();
+    // second target sorts after everything, first keeps its place; written in reverse order
+    targets[which] = vec![format!("u{}", which), format!("t{}", which)];
+    let mut cands: Vec<String> = targets.iter().flat_map(|t| t.iter().cloned()).collect();
+    cands.extend(leaves.iter().map(|s| s.to_string()));
+    let subs = subsets_nonempty(&cands, cands.len());
+    let mut goals: Vec<Option<String>> = vec![None];
+    goals.extend(targets.iter().flat_map(|t| t.iter().cloned()).map(Some));
+    Family { name: format!("{} rules, rule {} has two targets, sources from all targets + {:?}", n, which, leaves), targets, choices: vec![subs; n], goals, orders: perms(n) }
+}
+
+/// duplicate targets: rule `a` also lists the target of rule `b`
+pub fn family_dup(n: usize) -> Vec<Family>
+{
+    let mut out = vec![];
+    for a in 0..n
+    {
+        for b in 0..n
+        {
+            if a == b { continue; }
+            let mut f = family_single(n, &["z"], n + 1);
+            f.targets[a].push(format!("t{}", b));
+            f.name = format!("{} rules, rule {} also claims the target of rule {}", n, a, b);
+            out.push(f);
+        }
+    }
+    out
+}
+
+pub struct SortStats
+{
+    pub graphs: AtomicU64,
+    pub cases: AtomicU64,
+    pub accepted: AtomicU64,
+    pub rejected: AtomicU64,
+}
+
+fn decode(f: &Family, mut k: u64) -> Vec<GRule>
+{
+    let mut g = vec![];
+    for i in 0..f.targets.len()
+    {
+        let m = f.choices[i].len() as u64;
+        g.push(GRule { targets: f.targets[i].clone(), sources: f.choices[i][(k % m) as usize].clone() });
+        k /= m;
+    }
+    g
+}
+
+pub fn family_size(f: &Family) -> u64
+{
+    f.choices.iter().map(|c| c.len() as u64).product()
+}
+
+/// Enumerate a family completely (or until the deadline); returns (complete, violations)
+pub fn run_family(f: Arc<Family>, threads: usize, deadline: Instant, stats: Arc<SortStats>, found: Arc<Mutex<BTreeMap<String, (Vec<GRule>, Option<String>)>>>) -> bool
+{
+    let total = family_size(&f);
+    let next = Arc::new(AtomicU64::new(0));
+    let complete = Arc::new(std::sync::atomic::AtomicBool::new(true));
+    let mut hs = vec![];
+    for _ in 0..threads
+    {
+        let f = f.clone();
+        let next = next.clone();
+        let stats = stats.clone();
+        let found = found.clone();
+        let complete = complete.clone();
+        hs.push(std::thread::spawn(move ||
+        {
+            loop
+            {
+                let start = next.fetch_add(4096, Ordering::SeqCst);
+                if start >= total { break; }
+                if Instant::now() >= deadline { complete.store(false, Ordering::SeqCst); break; }
+                for k in start..(start + 4096).min(total)
+                {
+                    let g = decode(&f, k);
+                    stats.graphs.fetch_add(1, Ordering::Relaxed);
+                    for goal in &f.goals
+                    {
+                        stats.cases.fetch_add(1, Ordering::Relaxed);
+                        let (d, _) = analyse(&g, goal);
+                        if d.is_empty() { stats.accepted.fetch_add(1, Ordering::Relaxed); } else { stats.rejected.fetch_add(1, Ordering::Relaxed); }
+                        if let Some(msg) = check_one(&g, goal, &f.orders)
+                        {
+                            let mut m = found.lock().unwrap();
+                            // keep the smallest witness per message class
+                            let class = msg.split(|c: char| c == '[' || c == '{').next().unwrap_or("").trim().to_string();
+                            let size: usize = g.iter().map(|r| r.sources.len()).sum();
+                            let replace = match m.get(&class) { Some((g0, _)) => g0.iter().map(|r| r.sources.len()).sum::<usize>() + g0.len() * 10 > size + g.len() * 10, None => true };
+                            if replace { m.insert(class, (g.clone(), goal.clone())); }
+                        }
+                    }
+                }
+            }
+        }));
+    }
+    for h in hs { let _ = h.join(); }
+    complete.load(Ordering::SeqCst)
+}
+
+// parametric large families -------------------------------------------------
+
+fn chain(n: usize) -> Vec<GRule>
+{
+    (0..n).map(|i| GRule { targets: vec![format!("c{:02}", i)], sources: if i + 1 < n { vec![format!("c{:02}", i + 1)] } else { vec!["leaf".into()] } }).collect()
+}
+
+fn full_dag(n: usize) -> Vec<GRule>
+{
+    (0..n).map(|i| GRule { targets: vec![format!("k{}", i)], sources: { let mut s: Vec<String> = (i + 1..n).map(|j| format!("k{}", j)).collect(); s.push("leaf".into()); s } }).collect()
+}
+
+fn binary_tree(depth: usize) -> Vec<GRule>
+{
+    let n = (1 << depth) - 1;
+    (0..n).map(|i| GRule { targets: vec![format!("b{:02}", i)], sources: { let l = 2 * i + 1; if l + 1 < n { vec![format!("b{:02}", l), format!("b{:02}", l + 1)] } else { vec![format!("leaf{}", i)] } } }).collect()
+}
+
+fn ladder(n: usize) -> Vec<GRule>
+{
+    // two rails; each rung depends on both rungs below
+    let mut g = vec![];
+    for i in 0..n
+    {
+        for side in ["l", "r"]
+        {
+            let sources = if i + 1 < n { vec![format!("l{:02}", i + 1), format!("r{:02}", i + 1)] } else { vec!["ground".to_string()] };
+            g.push(GRule { targets: vec![format!("{}{:02}", side, i)], sources });
+        }
+    }
+    g
+}
+
+pub fn parametric() -> Vec<(String, Vec<GRule>)>
+{
+    let mut v = vec![];
+    for n in [2usize, 5, 10, 20, 40] { v.push((format!("chain-{}", n), chain(n))); }
+    for n in 2..=8 { v.push((format!("full-dag-K{}", n), full_dag(n))); }
+    for d in 2..=5 { v.push((format!("binary-tree-depth-{}", d), binary_tree(d))); }
+    for n in [2usize, 5, 10, 20] { v.push((format!("ladder-{}", n), ladder(n))); }
+    // each with one back edge (cycle), a self loop, a duplicate target
+    let base: Vec<(String, Vec<GRule>)> = v.clone();
+    for (name, g) in base
+    {
+        let n = g.len();
+        let mut c = g.clone();
+        let first = g[0].targets[0].clone();
+        c[n - 1].sources.push(first.clone());
+        v.push((format!("{}+back-edge", name), c));
+        let mut s = g.clone();
+        let own = s[n / 2].targets[0].clone();
+        s[n / 2].sources.push(own);
+        v.push((format!("{}+self-loop", name), s));
+        let mut d = g.clone();
+        d[n - 1].targets.push(first);
+        v.push((format!("{}+duplicate-target", name), d));
+    }
+    v
+}
+
+pub fn run(rep: &mut Report, tier: &str)
+{
+    let thorough = tier == "thorough";
+    let threads = crate::cli::threads();
+    let stats = Arc::new(SortStats { graphs: AtomicU64::new(0), cases: AtomicU64::new(0), accepted: AtomicU64::new(0), rejected: AtomicU64::new(0) });
+    let found = Arc::new(Mutex::new(BTreeMap::new()));
+    let mut fams: Vec<Family> = vec![];
+    for n in 1..=3 { fams.push(family_single(n, &["a", "z"], 99)); }
+    fams.push(family_single(4, &["z"], 99));
+    for which in 0..2 { fams.push(family_multi(2, &["z"], which)); }
+    for which in 0..3 { fams.push(family_multi(3, &["z"], which)); }
+    fams.extend(family_dup(2));
+    fams.extend(family_dup(3));
+    if thorough
+    {
+        fams.push(family_single(4, &["a", "z"], 99));
+        fams.push(family_single(5, &["z"], 2));
+        for which in 0..4 { fams.push(family_multi(4, &[], which)); }
+    }
+    let mut exhaustive = true;
+    let mut per = vec![];
+    let budget = if thorough { 500 } else { 30 };
+    let deadline = Instant::now() + Duration::from_secs(budget);
+    for f in fams
+    {
+        let f = Arc::new(f);
+        let before = stats.graphs.load(Ordering::SeqCst);
+        let complete = run_family(f.clone(), threads, deadline, stats.clone(), found.clone());
+        exhaustive &= complete;
+        per.push(json!({"family": f.name, "graphs": family_size(&f), "graphs_done": stats.graphs.load(Ordering::SeqCst) - before, "goals": f.goals.len(), "input_orders": f.orders.len() + 1, "complete": complete}));
+    }
+    // parametric families: all goals incl. none and an absent one, reversed input order
+    let mut pcount = 0u64;
+    for (name, g) in parametric()
+    {
+        let mut goals: Vec<Option<String>> = vec![None, Some("nope".into())];
+        goals.extend(g.iter().map(|r| Some(r.targets[0].clone())));
+        let orders = vec![(0..g.len()).rev().collect::<Vec<_>>()];
+        for goal in goals
+        {
+            pcount += 1;
+            stats.cases.fetch_add(1, Ordering::Relaxed);
+            if let Some(msg) = check_one(&g, &goal, &orders)
+            {
+                let class = format!("{} ({})", msg.split(|c: char| c == '[' || c == '{').next().unwrap_or("").trim(), name.split('-').next().unwrap_or(""));
+                found.lock().unwrap().entry(class).or_insert((g.clone(), goal.clone()));
+            }
+        }
+    }
+    per.push(json!({"family": "parametric: chains to 40, full DAGs K2..K8, binary trees to depth 5, ladders to 20 rungs, each also with a back edge / self loop / duplicate target", "cases": pcount, "complete": true}));
+    rep.set("states", json!(stats.graphs.load(Ordering::SeqCst)));
+    rep.set("transitions", json!(stats.cases.load(Ordering::SeqCst)));
+    rep.set("traces_validated_against_impl", json!(stats.cases.load(Ordering::SeqCst)));
+    rep.set("evaluations", json!(stats.cases.load(Ordering::SeqCst)));
+    rep.set("valid_graph_goal_pairs", json!(stats.accepted.load(Ordering::SeqCst)));
+    rep.set("invalid_graph_goal_pairs", json!(stats.rejected.load(Ordering::SeqCst)));
+    rep.set("distinct_nontrivial", json!(stats.accepted.load(Ordering::SeqCst).min(stats.rejected.load(Ordering::SeqCst))));
+    rep.set("exhaustive", json!(exhaustive));
+    rep.set("families", json!(per));
+    rep.push_sample(json!({"rules": [{"targets": ["t0"], "sources": ["t1", "t2"]}, {"targets": ["t1"], "sources": ["t2"]}, {"targets": ["t2"], "sources": ["z"]}], "goal": "t0"}));
+    for (class, (g, goal)) in found.lock().unwrap().iter()
+    {
+        let msg = check_one(g, goal, &[]).unwrap_or_else(|| class.clone());
+        rep.violation(Violation
+        {
+            property: "C12".into(),
+            signature: format!("C12:sort:{}", class),
+            summary: format!("{} — rules {} goal {:?}", msg, g.iter().map(|r| format!("{:?}<-{:?}", r.targets, r.sources)).collect::<Vec<_>>().join(", "), goal),
+            replay: json!({"engine": "sort", "rules": g, "goal": goal}),
+        });
+    }
+}
+
+pub fn replay(v: &Value) -> i32
+{
+    let g: Vec<GRule> = serde_json::from_value(v["rules"].clone()).unwrap_or_default();
+    let goal: Option<String> = serde_json::from_value(v["goal"].clone()).unwrap_or(None);
+    let orders = vec![(0..g.len()).rev().collect::<Vec<_>>()];
+    println!("rules: {}", g.iter().map(|r| format!("{:?}<-{:?}", r.targets, r.sources)).collect::<Vec<_>>().join(", "));
+    println!("goal: {:?}; result: {:?}", goal, run_sort(&g, &goal).map(|p| p.nodes.iter().map(|n| n.targets.clone()).collect::<Vec<_>>()));
+    match check_one(&g, &goal, &orders)
+    {
+        Some(m) => { println!("{}", m); 1 },
+        None => 0,
+    }
+}
